@@ -579,7 +579,7 @@ def check_case(case):
             return None
         tmp = tempfile.mkdtemp(prefix='c13o_')
         out = os.path.join(tmp, 'o.json')
-        spec = case['spec']
+        spec = json.loads(case['spec_json'])      # a string: key order is part of the input
         b = quiet(lambda: read_input_dict(copy.deepcopy(spec), out, verbose=False))
         sims = b._simulations
         if kind == 'expansion':
@@ -597,6 +597,20 @@ def check_case(case):
                             f'requested but not built: {missing[:2]}; built but not requested: {extra[:2]}')
             if pos != len(sims):
                 return f'{len(sims)} simulations built, {pos} requested'
+            return None
+        if kind == 'runs':
+            exp = []
+            for run in spec['runs']:
+                d = run['decoder'].get('parameters', {})
+                exp.append(repr((('code',) + expected_code(run['code']['name'], run['code']['parameters']),
+                                 ('noise',) + expected_noise(run['error_model']['name'], run['error_model']['parameters']),
+                                 ('decoder', run['decoder']['name'],
+                                  tuple(sorted({**decoder_defaults(run['decoder']['name']), **d}.items()))),
+                                 run['error_rate'])))
+            got = [sim_tuple(s) for s in sims]
+            if Counter(exp) != Counter(got):
+                missing = list((Counter(exp) - Counter(got)).elements())
+                return (f'{len(got)} simulations for {len(exp)} runs; requested but not built: {missing[:2]}')
             return None
         if kind == 'reinstantiate':
             for sim in sims[:10]:
@@ -665,7 +679,9 @@ def oracle_cases(ctx, deep):
         spec = {'ranges': gen_ranges(rng, max_product=8)}
         cases.append({'kind': 'reinstantiate', 'spec': spec})
         cases.append({'kind': 'resume', 'spec': {'ranges': gen_ranges(rng, max_product=12, runnable=True)}})
-    # a 5x5 axis pair and the fixture of the repository's own test
+    for _ in range(10 if deep else 4):
+        cases.append({'kind': 'runs', 'spec': {'runs': [gen_run(rng) for _ in range(int(rng.integers(1, 6)))]}})
+    # one axis with five values
     big = gen_ranges(rng, max_product=1)
     big['error_rate'] = RATES[:5]
     cases.append({'kind': 'expansion', 'spec': {'ranges': big}})
@@ -674,11 +690,15 @@ def oracle_cases(ctx, deep):
 
 def oracle(ctx, deep=False, broken=None):
     cases = oracle_cases(ctx, deep)
+    for c in cases:
+        if 'spec' in c:
+            c['spec_json'] = json.dumps(c.pop('spec'))
 
     def key(c):
         if c['kind'] == 'registry':
             return {'kind': 'registry', 'table': c['table'], 'name': c['name']}
-        r = c['spec']['ranges']
+        sp = json.loads(c['spec_json'])
+        r = sp['ranges'] if 'ranges' in sp else sp['runs']
         r0 = r[0] if isinstance(r, list) else r
         return {'kind': c['kind'], 'code': r0['code']['name'], 'decoder': r0['decoder']['name']}
     fails = first_failures(cases, check_case, key=key)
